@@ -699,7 +699,7 @@ def extract_item(gen, it):
 def generate(unit, probe=False):
   """unit: object with .name, .parts (list of Raw | Item | Fn | ('impl', header, [Fn...]))"""
   gen = Gen(unit.name)
-  gen.emit_raw("// GENERATED by vx from %s working tree -- unit %s%s\n#![allow(unused)]\nuse vstd::prelude::*;\nverus! {\nglobal size_of usize == 8;\n" % (REPO, unit.name, " (vacuity probe)" if probe else ""), "vx-header")
+  gen.emit_raw("// GENERATED by vx from %s working tree -- unit %s%s\n#![allow(unused)]\n#![feature(allocator_api)]\nuse vstd::prelude::*;\nverus! {\nglobal size_of usize == 8;\n" % (REPO, unit.name, " (vacuity probe)" if probe else ""), "vx-header")
   for part in unit.parts:
     if isinstance(part, Raw):
       text = part.text if part.text is not None else open(os.path.join(os.path.dirname(os.path.abspath(__file__)), "..", part.path)).read()
